@@ -6,4 +6,3 @@ import "verif/internal/vf"
 var Registry = map[string]func(*vf.Run){}
 
 func reg(id string, fn func(*vf.Run)) { Registry[id] = fn }
-
